@@ -23,6 +23,9 @@ func TestMain(m *testing.M) { ev.Main(m, "C03") }
 // Case: several layouts (whitespace / escape spellings) of one JSON value.
 type Case struct {
 	Layouts []string `json:"layouts"`
+	// Prelude: a disturbing call sequence on other objects (sut.Disturb) run before the case - the answer
+	// for a plain JSON text must not depend on what the process handled before
+	Prelude int `json:"prelude,omitempty"`
 }
 
 func hasExpOrDup(v *jsonv.Value) bool {
@@ -161,6 +164,11 @@ func astDiff(v *jsonv.Value, n schema.ASTNode, path string) (string, string) {
 func oracle(c Case) *ev.Verdict {
 	if len(c.Layouts) == 0 {
 		return nil
+	}
+	if c.Prelude != 0 {
+		sut.Pristine()
+		sut.Disturb(c.Prelude)
+		ev.Class("json", "after a disturbing prelude")
 	}
 	ref, err := jsonv.Parse([]byte(c.Layouts[0]))
 	if err != nil {
@@ -332,6 +340,7 @@ func judged(c Case) *ev.Verdict {
 func registerAll() {
 	ev.Register("json", judged)
 	ev.Register("keys", oracle)
+	ev.Register("json-after-prelude", judged)
 }
 
 func TestPropJSON(t *testing.T) {
@@ -349,6 +358,16 @@ func TestPropJSON(t *testing.T) {
 		}
 		return c
 	}, judged)
+}
+
+// the same after a disturbing prelude (every case starts from emptied pools, see sut.Pristine)
+func TestPropJSONAfterPrelude(t *testing.T) {
+	registerAll()
+	ev.Rapid(t, "json-after-prelude", ev.N(300, 3000), func(t *rapid.T) Case {
+		v := gen.JSONValue(t, gen.JSONOpts{Depth: 3})
+		return Case{Layouts: []string{gen.EncodeJSONDoc(t, v)}, Prelude: rapid.IntRange(1, sut.DisturbMax).Draw(t, "prelude")}
+	}, judged)
+	sut.Pristine()
 }
 
 // exhaustive: every key / string of <= 2 symbols over an escape alphabet, as object key and as value
